@@ -237,6 +237,12 @@ Theorem C02_history_continues_from_unchanged_world : forall vr accts s b st rest
   run_steps vr accts s b (st :: rest) i = run_steps vr accts s b rest (i + 1).
 Proof. exact run_steps_err_keeps. Qed.
 
+(* ---- hence over any history of calls of any kind (failed ones included), by anybody, the
+   total per denom over all accounts, burned coins included, never changes ---- *)
+Theorem C02_total_constant_over_histories : forall steps vr s b d,
+  total (snd (world_run vr s b steps)) d = total b d.
+Proof. exact world_run_total. Qed.
+
 (* ---- a visible consequence of the bank rejecting zero-amount sends: when the fee in
    force is exactly 1 (e.g. price 100, 100 bps) the launchpad-DAO share is 0 and the whole
    mint FAILS.  A failure, which the property allows ("succeeds only if"). ---- *)
@@ -333,4 +339,5 @@ Print Assumptions C02_outside_known_airdrop.
 Print Assumptions C02_airdrop_remainder_general.
 Print Assumptions C02_airdrop_remainder_refuted.
 Print Assumptions C02_failed_call_moves_nothing.
+Print Assumptions C02_total_constant_over_histories.
 Print Assumptions C02_mint_with_fee_one_fails.
